@@ -96,7 +96,12 @@ def scripts(rng: random.Random, n: int):
             s += [("net", 0, 1), ("rst",), ("adv", 10)]
             for _ in range(rng.choice([2, 3, 4])):
                 s.append(("send", rng.choice([0, 1, 4]), rng.choice([0, 2, 3])))
-            s += [("bp", 1), ("net", 1, 1), ("adv", 2100), ("adv", rng.choice([500, 1500, 3500])), ("bp", 0), ("adv", 50)]
+            s += [("bp", 1), ("net", 1, 1), ("adv", 2100)]
+            if rng.random() < 0.5:
+                # ... and another task sends while the backlog is still being written (the flush is parked after its
+                # first frame): the newcomer's place is behind the whole backlog
+                s += [("adv", 5), ("send", rng.choice([0, 1, 4]), rng.choice([2, 3])), ("adv", 30)]
+            s += [("adv", rng.choice([500, 1500, 3500])), ("bp", 0), ("adv", 50)]
         else:
             s.append(("bp", 1))
             s.append(("send2", rng.choice([0, 1, 4]), rng.choice([0, 1]), rng.choice([0, 1, 4]), rng.choice([0, 2])))
